@@ -240,13 +240,28 @@ where
         }
     }
 
+    #[cfg(test)]
     pub(crate) fn choose_down_members(
         &self,
         wanted: usize,
         output: &mut Vec<Member<T>>,
         rng: impl Rng,
     ) {
-        self.choose_members(wanted, output, rng, |member| !member.is_active());
+        self.choose_down_members_if(wanted, output, rng, |_| true);
+    }
+
+    pub(crate) fn choose_down_members_if<F>(
+        &self,
+        wanted: usize,
+        output: &mut Vec<Member<T>>,
+        rng: impl Rng,
+        picker: F,
+    ) where
+        F: Fn(&T) -> bool,
+    {
+        self.choose_members(wanted, output, rng, |member| {
+            !member.is_active() && picker(member.id())
+        });
     }
 
     pub(crate) fn choose_active_members<F>(
